@@ -12,6 +12,7 @@ encode_body(msg, asn4=False, add_path=False, opts=None) -> bytes             (wi
 expected(msg, asn4, add_path=False, opts=None) -> {'attr', 'nlri', 'withdraw'}
 in_range(msg, asn4, add_path=False, opts=None) -> (ok, why)
 decode_update(body, asn4, add_path=False) -> dict                            (independent decoder)
+afi_add_path(add_path) -> the dict form Update.parse wants for the same add-path selection
 ext_community_bytes(item) / ext_community_text(item) / ext_community_from_text(text) /
 ext_community_to_text(b8); community_value / community_text; encode_rd / rd_text; encode_esi;
 encode_labels; encode_prefix4 / encode_prefix6; flowspec_rule / flowspec_ops / flowspec_ops_text;
@@ -21,8 +22,11 @@ harness's `norm` should apply to decoder output before comparing).
 opts (dict, every key optional)
     'ext_len'        set of attribute codes whose length is forced to the 2-octet encoding
     'order'          list of attribute codes giving the wire order (others follow, ascending)
-    'trailing_bits'  True | 'v4' | 'v6': fill the unused low bits of the last octet of every
-                     IPv4 / IPv6 prefix with ones (RFC 4271 4.3: their value is irrelevant)
+    'trailing_bits'  True | 'v4' | 'v6' | 'ipv4-unicast': fill the unused low bits of the last octet of
+                     every IPv4 / IPv6 prefix with ones (RFC 4271 4.3: their value is irrelevant).
+                     'v4' / 'v6' cover every prefix of that version (unicast, labeled, VPN, flowspec
+                     components); 'ipv4-unicast' only the plain <length, prefix> lists (UPDATE body and
+                     MP (1,1)), which is all DESIGN C09 claims for yabgp
     'split_aspath'   n: every AS_SEQUENCE / AS_CONFED_SEQUENCE (attributes 2 and 17) longer than n is
                      written as several segments of the same type; expected() reports the split
     'path_id'        path identifier used for entries that carry none when add_path is on (default 1)
@@ -116,7 +120,7 @@ import struct
 
 from vf.ref.wire import frame, UPDATE
 
-__all__ = ['OutOfRange', 'encode_attr', 'encode_update', 'encode_body', 'expected', 'in_range',
+__all__ = ['OutOfRange', 'Malformed', 'afi_add_path', 'encode_attr', 'encode_update', 'encode_body', 'expected', 'in_range',
            'decode_update', 'ext_community_from_text', 'ext_community_bytes', 'ext_community_text',
            'ext_community_to_text', 'canon_text']
 
@@ -227,6 +231,12 @@ def _opt(opts, key, default=None):
 PREFIX_FAMILIES = ((1, 1), (2, 1), (1, 4), (2, 4), (1, 128), (2, 128))
 
 
+def afi_add_path(add_path):
+    """The `afi_add_path` dict Update.parse takes ({'ipv4': True, 'vpnv6': True, ...}) for an add_path
+    argument of this module (names as in FAMILIES, which are those of yabgp's AFI_SAFI_DICT)."""
+    return dict((FAMILIES[f], True) for f in PREFIX_FAMILIES if _addpath_on(add_path, *f))
+
+
 def _addpath_on(add_path, afi, safi):
     if not add_path:
         return False
@@ -235,9 +245,9 @@ def _addpath_on(add_path, afi, safi):
     return (afi, safi) in set(tuple(x) for x in add_path)
 
 
-def _trailing(opts, version):
+def _trailing(opts, version, plain=False):
     t = _opt(opts, 'trailing_bits', False)
-    return t is True or t == ('v%d' % version)
+    return t is True or t == ('v%d' % version) or (t == 'ipv4-unicast' and version == 4 and plain)
 
 
 # ================================================================== prefixes
@@ -321,7 +331,7 @@ def encode_prefix_list(items, version, on, opts):
     for item in items:
         pid, item = _entry(item, on, opts)
         raw, plen = _split_prefix(_plain_prefix(item), version)
-        out += _pid_bytes(pid) + bytes([plen]) + _prefix_octets(raw, plen, _trailing(opts, version))
+        out += _pid_bytes(pid) + bytes([plen]) + _prefix_octets(raw, plen, _trailing(opts, version, True))
     return out
 
 
